@@ -4,11 +4,12 @@ CONSTANTS
   MaxSize = 6
   ForkAt = 2
   Proofs = {"correct"}
+  Aliases = {"bits", "nl", "nopad", "urlsafe", "space"}
 INIT TraceInit
 NEXT TraceNext
 VIEW TraceView
 CONSTRAINT HighWater
-INVARIANTS TraceOnlySigned
+INVARIANTS TraceOnlySigned TraceCosignedHeld
 PROPERTIES TraceForwardOnly
 POSTCONDITION TraceAccepted
 CHECK_DEADLOCK FALSE
